@@ -151,15 +151,15 @@ func evalC06(c c06Case) (f *Failure, nontrivial bool, out c06Result) {
 			})
 		}
 		if c.Transport == "upgrade" && c.Phase == "upgrade" {
-			r.Net.OnFirstWrite = func(l *memnetLink, data []byte) {
+			r.Net.SetOnFirstWrite(func(l *memnetLink, data []byte) {
 				if strings.Contains(string(data), "Upgrade: websocket") {
 					l.SetLatency(5 * time.Millisecond)
 				}
-			}
+			})
 		}
 		if c.Cause == "cut-at-byte" {
-			prev := r.Net.OnDial
-			r.Net.OnDial = func(l *memnetLink) error {
+			prev := r.Net.GetOnDial()
+			r.Net.SetOnDial(func(l *memnetLink) error {
 				if l.ID == c.CutLink {
 					l.CutAfter(c.CutDir == "c2s", int64(c.CutAt))
 				}
@@ -167,7 +167,7 @@ func evalC06(c c06Case) (f *Failure, nontrivial bool, out c06Result) {
 					return prev(l)
 				}
 				return nil
-			}
+			})
 		}
 		m := r.manager(c01Transports(c.Transport), nil)
 		var mgrEvents []string
@@ -283,7 +283,7 @@ func evalC06(c c06Case) (f *Failure, nontrivial bool, out c06Result) {
 		// A byte-offset cut that has not fired by now would only be triggered by the verdict's own traffic: disarm it (the case then counts as
 		// "no fault happened"). Then wait until the picture is stable, so that the verdict does not race a connection that is just ending.
 		r.Net.DisarmCuts()
-		r.Net.OnDial = nil
+		r.Net.SetOnDial(nil)
 		for round := 0; round < 4; round++ {
 			mu.Lock()
 			before := 0
